@@ -11,7 +11,7 @@ out = ["# Seeded defects", "",
        "/repo (nothing from /verif). Each change compiles, passes the pinned suite unedited, and breaks the property",
        "only under a specific trigger; each was confirmed here (patch applies to a scratch copy, suite green with it,",
        "the demonstration differs with vs. without the change) before the quick checks were run against it with",
-       "`tools/try_seed.sh` (`VERIF_REPO=<scratch copy> ./check <ID> quick`). None of them is ever applied to /repo.", "",
+       "`tools/try_seed.sh` (`VERIF_REPO=<scratch copy> ./check <ID> quick`). None of them is ever applied to /repo.\nEvery `patch.diff` (or `patch.ported.diff` where later repairs had changed the context) applies to /repo at its\nfinal commit 3e860cd (`git apply --check`, verified for all of them at the end).", "",
        "| seed | needs, in order to manifest | caught by | missed by | note |", "|---|---|---|---|---|"]
 for m in rows:
     out.append("| %s-%s | %s | %s | %s | %s |" % (m['property'], m['mutant'], m['needs_to_manifest'].replace('|', '/'),
